@@ -33,6 +33,7 @@ type dumper struct {
 }
 
 func Dump(v any, opts *DumpOpts) string {
+	Beat()
 	if opts == nil {
 		opts = &DumpOpts{}
 	}
